@@ -63,7 +63,7 @@ impl std::fmt::Display for StateID {
 
 try_from_lookahead = Fn(F_LA, 'CompiledLookahead', 'try_from_lookahead', ret='r', props=P,
     spec='''
-requires th_fits(spec_parse(lookahead.pattern@), old(character_class_registry).view())
+requires la_fit1(spec_parse(lookahead.pattern@), old(character_class_registry).view())
 ensures
     r matches Ok(la) ==> la.is_positive == lookahead.is_positive
         // the lookahead automaton: minimized epsilon elimination of the Thompson automaton of the lookahead text
@@ -74,10 +74,10 @@ ensures
         Ins('body_start', None, 'let ghost reg0 = character_class_registry.view();'),
         Replace('E9', 'let nfa = Box::new(nfa.into());', '''
 let ghost n0 = nfa;
-proof { lemma_thompson_sub_wf(n0); }
+proof { lemma_thompson_sub_wf(n0); assert(n_len(n0) == nfa_view(n0).states.len()); }
 let nfa = Box::new(CompiledDfa::from__nfa(nfa));
 proof {
-    let (d0, reps) = choose|d0: CompiledDfa, reps: Seq<StateID>| elim_ok(g_nfa(n0), d0, reps) && d0.terminal_ids@ == seq![TerminalID(n0.pattern.token_type as u32)] && *nfa == spec_minimize(d0);
+    let (d0, reps) = choose|d0: CompiledDfa, reps: Seq<StateID>| elim_ok(g_nfa(n0), d0, reps) && d0.terminal_ids@ == seq![TerminalID(n0.pattern.token_type as u32)] && min_of(d0, *nfa);
     assert(nfa_view(n0) == thompson(spec_parse(lookahead.pattern@), reg0).0 && elim_ok(g_nfa(n0), d0, reps));
 }
 ''', why='`x.into()` resolved to the From impl its argument type selects (trait dispatch by type, E9)'),
@@ -98,17 +98,16 @@ pat_lookahead = Fn(F_PAT, 'Pattern', 'lookahead', ret='r', props=P,
 dfa_try_from_patterns = Fn(F_DFA, 'CompiledDfa', 'try_from_patterns', ret='r', props=P, attrs='#[verifier::loop_isolation(false)] #[verifier::allow_complex_invariants]',
     spec='''
 requires
-    mp_fits(patterns@, old(character_class_registry).view()),
+    mp_fits(patterns@, old(character_class_registry).view()), mp_off(patterns@, patterns@.len() as int, old(character_class_registry).view()) < u32::MAX,
     la_fits(patterns@, mp_th(patterns@, patterns@.len() as int, old(character_class_registry).view()).1),
 ensures
     r matches Ok(d) ==> {
         let pats = patterns@;
         let reg0 = old(character_class_registry).view();
         let reg1 = mp_th(pats, pats.len() as int, reg0).1;
-        exists|m: MultiPatternNfa, d0: CompiledDfa, reps: Seq<StateID>| {
-            let dm = spec_minimize(d0);
-            // the union of the Thompson automata, epsilon-eliminated, minimized ...
-            &&& #[trigger] mp_built(pats, reg0, m) && #[trigger] elim_ok(g_mp(m), d0, reps)
+        exists|m: MultiPatternNfa, d0: CompiledDfa, reps: Seq<StateID>, dm: CompiledDfa| {
+            // the union of the Thompson automata, epsilon-eliminated, minimized (dm: what Minimizer::minimize returned for d0) ...
+            &&& #[trigger] mp_built(pats, reg0, m) && #[trigger] elim_ok(g_mp(m), d0, reps) && #[trigger] min_of(d0, dm)
             &&& d0.terminal_ids@ == Seq::new(pats.len(), |i: int| tid_of(pats[i]))
             &&& d.states == dm.states && d.end_states == dm.end_states && d.terminal_ids == dm.terminal_ids
             // ... plus, per token type, the compiled lookahead of the last pattern carrying one
@@ -125,12 +124,12 @@ let ghost reg1 = mp_th(pats, pats.len() as int, reg0).1;
 '''),
         Ins('after_stmt', 'let mp_nfa = $_;', '''
 let ghost m = mp_nfa;
-proof { assert(mp_built(pats, reg0, m)); }
+proof { assert(mp_built(pats, reg0, m)); lemma_mp_bound(pats, reg0, m); }
 '''),
         Replace('E9', 'let mut compiled_dfa: CompiledDfa = mp_nfa.into();', '''
 let mut compiled_dfa: CompiledDfa = CompiledDfa::from__mp(mp_nfa);
 let ghost (d0, reps) = choose|d0: CompiledDfa, reps: Seq<StateID>| elim_ok(g_mp(m), d0, reps)
-    && d0.terminal_ids@ == Seq::new(m.patterns@.len(), |i: int| TerminalID(m.patterns@[i].token_type as u32)) && compiled_dfa == spec_minimize(d0);
+    && d0.terminal_ids@ == Seq::new(m.patterns@.len(), |i: int| TerminalID(m.patterns@[i].token_type as u32)) && min_of(d0, compiled_dfa);
 let ghost dm = compiled_dfa;
 proof {
     assert(d0.terminal_ids@ =~= Seq::new(pats.len(), |i: int| tid_of(pats[i])));
@@ -157,7 +156,7 @@ let ghost lm_in = compiled_dfa.lookaheads@;
 proof { assert(*pattern == pats[k]); }
 '''),
         Ins('after', 'if let Some(lookahead) = pattern.lookahead() {', '''
-proof { assert(pats[k].lookahead == Some(*lookahead)); assert(th_fits(spec_parse(lookahead.pattern@), la_reg(pats, k, reg1))); }
+proof { assert(pats[k].lookahead == Some(*lookahead)); assert(la_fit1(spec_parse(lookahead.pattern@), la_reg(pats, k, reg1))); }
 '''),
         Ins('block_end', 'for pattern in patterns.iter() {', '''
 proof {
@@ -175,7 +174,7 @@ proof {
 '''),
         Ins('before', 'Ok(compiled_dfa)', '''
 proof {
-    assert(mp_built(pats, reg0, m) && elim_ok(g_mp(m), d0, reps));
+    assert(mp_built(pats, reg0, m) && elim_ok(g_mp(m), d0, reps) && min_of(d0, dm));
 }
 '''),
     ])
